@@ -323,8 +323,9 @@ def shl(a, k):
         if k > MAX_SHIFT * 4:
             raise OutOfSubset('huge shift')
         lo, hi = a.lo << k, a.hi << k
-        w = width_for(lo, hi)
-        return norm(fit(a, w) << k, lo, hi)
+        if k == 0:
+            return a
+        return norm(z3.Concat(a.t, z3.BitVecVal(0, k)), lo, hi)
     k = tighten_nonneg(lift(k), 'negative shift count')
     k = tighten_upper(k, MAX_SHIFT, 'shift count')
     cand = [a.lo << k.hi, a.lo << k.lo, a.hi << k.hi, a.hi << k.lo]
@@ -343,9 +344,11 @@ def shr(a, k):
         if k < 0:
             raise HostError(ValueError, 'negative shift count')
         lo, hi = a.lo >> k, a.hi >> k
+        if k == 0:
+            return a
         if k >= a.w:
             k = a.w - 1
-        return norm(fit(a, a.w) >> k, lo, hi)
+        return norm(z3.Extract(a.w - 1, k, a.t), lo, hi)      # signed value of the upper bits = floor(a / 2**k)
     k = tighten_nonneg(lift(k), 'negative shift count')
     cand = [a.lo >> k.lo, a.lo >> k.hi, a.hi >> k.lo, a.hi >> k.hi]
     lo, hi = min(cand), max(cand)
@@ -475,6 +478,9 @@ def _bit_bounds(a, b, w):
 def band(a, b):
     if conc(a) and conc(b):
         return a & b
+    for x, y in ((a, b), (b, a)):
+        if conc(y) and not isinstance(y, bool) and y >= 0 and (y & (y + 1)) == 0:
+            return mod(x, y + 1)            # x & (2**k - 1) == x mod 2**k, also for negative x
     a, b = lift(a), lift(b)
     w = max(a.w, b.w)
     t = fit(a, w) & fit(b, w)
@@ -606,6 +612,8 @@ def implies(a, b):
 
 def zb(x):
     """python/SymBool truth value -> z3 BoolRef"""
+    if z3 is not None and isinstance(x, z3.BoolRef):
+        return x
     x = truth(x)
     if isinstance(x, SymBool):
         return x.b
